@@ -93,12 +93,16 @@ Init ==
                          body |-> Tr(TransportKinds[t2], 2, Var(<<"kk">>), LAMBDA e2 : Sink(SinkKinds[k], e2)), empty |-> <<>>] >>
        [] Family = "ftparam" ->
             \* the parameter of a filter in the `filter` tag
-            \E s \in 1..Len(Sources), t1 \in {1, 2, 3, 6}, shape \in 1..4 :
+            \E s \in 1..Len(Sources), t1 \in {1, 2, 3, 6}, shape \in 1..6 :
               prog = Tr(TransportKinds[t1], 1, Sources[s], LAMBDA e1 :
                         CASE shape = 1 -> <<[t |-> "filter", chain |-> <<FC("default", e1)>>, body |-> <<>>]>>
                           [] shape = 2 -> <<[t |-> "filter", chain |-> <<FC("add", e1)>>, body |-> <<T(<<"x">>)>>]>>
                           [] shape = 3 -> <<[t |-> "filter", chain |-> <<FC("lower", NoArg), FC("default", e1)>>, body |-> <<>>]>>
-                          [] shape = 4 -> <<[t |-> "filter", chain |-> <<FC("lower", e1), FC("cut", e1)>>, body |-> <<T(<<"x">>), Out(e1)>>]>>)
+                          [] shape = 4 -> <<[t |-> "filter", chain |-> <<FC("lower", e1), FC("cut", e1)>>, body |-> <<T(<<"x">>), Out(e1)>>]>>
+                          \* the text sits inside a list that is the parameter
+                          [] shape = 5 -> <<[t |-> "filter", chain |-> <<FC("default", Var(<<"l">>)), FC("join", Lit(S(<<",">>)))>>, body |-> <<>>]>>
+                          [] shape = 6 -> <<Set("lst", [t |-> "arr", items |-> <<e1, Lit(I(1))>>]),
+                                            [t |-> "filter", chain |-> <<FC("default", Var(<<"lst">>)), FC("first", NoArg)>>, body |-> <<>>]>>)
        [] Family = "filters" ->
             \E f \in RegFilters, a \in 1..Len(SymArgs), s \in 1..Len(Sources), k \in {1, 2, 3}, t1 \in {1, 2, 6} :
               prog = Tr(TransportKinds[t1], 1, Sources[s], LAMBDA e1 : Sink(SinkKinds[k], Filt(e1, <<FC(f, SymArgs[a])>>)))
